@@ -53,7 +53,7 @@ META = {
     },
     "outside": ["sampling statistics (samplers run in the numeric cross-run only: support on non-zero probability strings, MPS sample probability == |amplitude|^2; "
                 "after a parameter update: same seed gives the samples of a fresh circuit)",
-                "strength / optimality of simplification and light-cone cancellation", "N > 4 (N = 4 only for the permutation programs)", "PEPS / PEPO circuit classes",
+                "strength / optimality of simplification and light-cone cancellation", "N > 4 (N = 4 only for the permutation programs)", "PEPS / PEPO simple-update circuit classes symbolically (numerical gauge conditioning): numeric-only supplement simple_update_circuits_numeric on tree geometries, untruncated; 2D lattices (approximate by design) not covered",
                 "qasm / qsim parsers (only the OpenQASM 3 input-parameter registration is exercised)",
                 "gate-splitting of *symbolic* two-qubit gates by numerical rank detection (cutoff on symbolic singular values): numeric cross-run only",
                 "truncating MPS options",
@@ -997,6 +997,55 @@ def history_named_params(mk, build, cfg, hist):
             upd[3 if key == "b" else key] = arr1(val[key]) if key == "b" else val[key]
         circ.set_params(upd)
         check_all(f"after step {k}: set_params({sorted(map(str, upd))})", k)
+
+
+_SU_GEOMS = {"chain4": (4, [(0, 1), (1, 2), (2, 3)]), "star4": (4, [(0, 1), (0, 2), (0, 3)]), "chain3": (3, [(0, 1), (1, 2)])}
+
+
+@obligation(PROP, params=[{"sim": s_, "geom": g_, "_tiers": ("quick", "thorough") if g_ == "chain4" else ("thorough",)}
+                          for s_ in ("CircuitPEPOSimpleUpdate", "CircuitPEPSSimpleUpdate") for g_ in _SU_GEOMS], numeric=True, num_trials=2)
+def simple_update_circuits_numeric(mk, sim, geom):
+    """LABELLED NUMERIC-ONLY SUPPLEMENT (third round).  The simple-update circuit simulators (Schroedinger-picture PEPS and
+    Heisenberg-picture PEPO on an arbitrary edge list) are exact on TREE geometries when nothing is truncated (cutoff=0, bond cap
+    2**N): local_expectation of one- and two-site observables equals <0|U^dag G U|0> of the dense reference for every edge in BOTH
+    orientations with observables that are not symmetric under exchange of their qubits.  Gauge conditioning takes numerical
+    inverses / roots of singular values: not modelled symbolically."""
+    if mk.sym:
+        mk.note("numeric-only: simple-update circuit classes (numerical gauge conditioning)")
+        mk.same("numeric-only obligation", True, True)
+        return
+    import quimb as qu
+    cls = getattr(qtn, sim, None)
+    if cls is None:
+        mk.note(f"{sim} not present in this quimb")
+        mk.same("class absent: nothing to check", True, True)
+        return
+    N, edges = _SU_GEOMS[geom]
+    rng = np.random.default_rng(17 + len(geom))
+    gates = []
+    for layer in range(3):
+        for i in range(N):
+            gates.append(qtn.Gate.from_raw(qu.rand_uni(2, seed=int(rng.integers(1 << 30))), qubits=[i]))
+        for (a, b) in edges[layer % 2::2] + edges[(layer + 1) % 2::2][:1]:
+            q = [a, b] if (layer + a) % 2 == 0 else [b, a]          # gates given in both orientations of an edge
+            gates.append(qtn.Gate.from_raw(qu.rand_uni(4, seed=int(rng.integers(1 << 30))), qubits=q))
+    circ = cls(edges=edges, max_bond=2 ** N, cutoff=0.0)
+    circ.apply_gates(gates)
+    psi = np.zeros((2 ** N, 1), dtype=complex)
+    psi[0, 0] = 1.0
+    for g in gates:
+        psi = qu.pkron(np.asarray(g.array).reshape(2 ** len(g.qubits), -1), [2] * N, list(g.qubits)) @ psi
+    G1 = qu.rand_herm(2, seed=3) + 0.3j * (qu.pauli("Y") @ qu.pauli("Z") - qu.pauli("Z") @ qu.pauli("Y")) * 0
+    G2 = qu.rand_herm(4, seed=5)
+    ZX = qu.pauli("Z") & qu.pauli("X")
+    for i in range(N):
+        mk.eq(f"[numeric-only] {sim}.local_expectation(G, {i}) == dense", complex(circ.local_expectation(G1, i)),
+              complex(qu.expec(qu.pkron(G1, [2] * N, [i]), psi)), tol=1e-6)
+    for (a, b) in edges:
+        for where in ((a, b), (b, a), [b, a]):
+            for nm, G in (("Z(x)X", ZX), ("random hermitian", G2)):
+                mk.eq(f"[numeric-only] {sim}.local_expectation({nm}, {where!r}) == dense <G on where, in the order given>",
+                      complex(circ.local_expectation(G, where)), complex(qu.expec(qu.pkron(G, [2] * N, list(where)), psi)), tol=1e-6)
 
 
 @obligation(PROP, numeric=True)
